@@ -1,1 +1,1141 @@
-// in-crate Kani harnesses included into the real crate under cfg(kani) (see MANIFEST.hooks)
+// in-crate Kani harnesses for http/aws_chunked_stream.rs (included under cfg(kani)): C08 (H1-H4), C09-P1.
+//
+// What finishes in CBMC (see /verif/kani/specs/C08.json): c08_h4_* (parse_chunk_meta vs the grammar; need the CBMC option
+// --max-field-sensitivity-array-size >= 96), c08_u1_* / c08_u2_*_cutset (read_meta_bytes / read_data polled as futures
+// on the STACK), c08_stub_memchr_table_is_exact.  What does not: everything that polls AwsChunkedStream::new(..) (the
+// boxed generator) - c08_h1_*, c08_h2_*, c08_h3_*, c09_p1_*; those functions are kept because they are replayed
+// NATIVELY with the real HMAC / parser / memchr by /verif/kani/gen/c08_native_replay.py (56 samples, all as expected).
+// NOTE for stubs: `#[kani::stub(::memchr::memchr::memchr, ..)]` silently resolves to the sysroot's copy of the memchr
+// crate and has no effect; the alias `use ::memchr::memchr as memchr_fn;` resolves to the crate s3s links.
+#[allow(clippy::all, clippy::pedantic, dead_code, unused_imports, unused_variables)]
+mod verif_kani_c08 {
+    use super::*;
+    use ::memchr::memchr as memchr_fn;
+
+    // ------------------------------------------------------------------------------------------
+    // stubs (each one is listed in specs/C08.json)
+    // ------------------------------------------------------------------------------------------
+
+    /// `memchr::memchr` (crate) and `core::slice::memchr::memchr` -> naive loop.
+    pub fn naive_memchr(x: u8, text: &[u8]) -> Option<usize> {
+        let mut i = 0;
+        while i < text.len() {
+            if text[i] == x {
+                return Some(i);
+            }
+            i += 1;
+        }
+        None
+    }
+
+    /// `core::arch::x86_64::__cpuid_count` -> zeros.
+    pub fn cpuid_zero(_leaf: u32, _sub: u32) -> core::arch::x86_64::CpuidResult {
+        core::arch::x86_64::CpuidResult { eax: 0, ebx: 0, ecx: 0, edx: 0 }
+    }
+
+    // ------------------------------------------------------------------------------------------
+    // H4: parse_chunk_meta  ==  chunk-size ";chunk-signature=" 64OCTET CRLF   (nothing before, nothing after)
+    // ------------------------------------------------------------------------------------------
+
+    fn hexval(c: u8) -> Option<u32> {
+        match c {
+            b'0'..=b'9' => Some((c - b'0') as u32),
+            b'a'..=b'f' => Some((c - b'a') as u32 + 10),
+            b'A'..=b'F' => Some((c - b'A') as u32 + 10),
+            _ => None,
+        }
+    }
+
+    const TAG: &[u8; 17] = b";chunk-signature=";
+
+    /// Reference recogniser written from the aws-chunked grammar
+    /// `chunk = 1*HEXDIG ";chunk-signature=" 64OCTET CRLF`; returns (size, offset of the signature).
+    fn ref_meta(b: &[u8]) -> Option<(usize, usize)> {
+        let n = b.len();
+        let mut p = 0;
+        let mut size: usize = 0;
+        while p < n && hexval(b[p]).is_some() {
+            size = size * 16 + hexval(b[p]).unwrap() as usize;
+            p += 1;
+        }
+        if p == 0 || n != p + 17 + 64 + 2 {
+            return None;
+        }
+        let mut k = 0;
+        while k < 17 {
+            if b[p + k] != TAG[k] {
+                return None;
+            }
+            k += 1;
+        }
+        if b[n - 2] != b'\r' || b[n - 1] != b'\n' {
+            return None;
+        }
+        Some((size, p + 17))
+    }
+
+    /// One header of length K + 83 + J:  K symbolic bytes (size field; any value, also ';', CR, LF), the tag
+    /// ";chunk-signature=" with the byte at offset `perturb` (1..=16, or NOP) replaced by a symbolic byte, a 64-byte
+    /// signature 'x'.. whose bytes 0, 31 and 63 are symbolic, two symbolic bytes in the place of CR LF, and J
+    /// symbolic trailing junk bytes.  Accepted iff in the grammar; size as denoted; signature = the 64 bytes.
+    /// The oracle is evaluated on the components (the buffer is their concatenation by construction).
+    /// `exclude_finding` removes exactly the role of finding `chunk_size_trailing_junk`: a size field
+    /// 1*HEXDIG 1*(junk without ';') in an otherwise exact header.
+    fn meta_case<const K: usize, const J: usize>(perturb: usize, exclude_finding: bool) {
+        let mut buf = [b'x'; 96];
+        let n = K + 83 + J;
+        let size_field: [u8; K] = kani::any();
+        let mut k = 0;
+        while k < K {
+            buf[k] = size_field[k];
+            k += 1;
+        }
+        k = 0;
+        while k < 17 {
+            buf[K + k] = TAG[k];
+            k += 1;
+        }
+        let mut tag_ok = true;
+        if perturb < 17 {
+            let x: u8 = kani::any();
+            buf[K + perturb] = x;
+            tag_ok = x == TAG[perturb];
+        }
+        buf[K + 17] = kani::any();
+        buf[K + 17 + 31] = kani::any();
+        buf[K + 17 + 63] = kani::any();
+        let cr: u8 = kani::any();
+        let lf: u8 = kani::any();
+        buf[K + 81] = cr;
+        buf[K + 82] = lf;
+        let junk: [u8; J] = kani::any();
+        k = 0;
+        while k < J {
+            buf[K + 83 + k] = junk[k];
+            k += 1;
+        }
+        // oracle from the grammar  1*HEXDIG ";chunk-signature=" 64OCTET CRLF
+        let mut all_hex = K > 0;
+        let mut value: usize = 0;
+        let mut leading_hex = 0; // number of leading hex digits
+        let mut has_semicolon = false;
+        k = 0;
+        while k < K {
+            match hexval(size_field[k]) {
+                Some(v) => {
+                    value = value * 16 + v as usize;
+                    if leading_hex == k {
+                        leading_hex = k + 1;
+                    }
+                }
+                None => all_hex = false,
+            }
+            if size_field[k] == b';' {
+                has_semicolon = true;
+            }
+            k += 1;
+        }
+        let rest_exact = tag_ok && cr == b'\r' && lf == b'\n' && J == 0;
+        let want = all_hex && rest_exact;
+        if exclude_finding {
+            kani::assume(!(rest_exact && !all_hex && leading_hex >= 1 && !has_semicolon));
+        }
+        let b = &buf[..n];
+        match parse_chunk_meta(b) {
+            Ok((rest, m)) => {
+                assert!(want, "parse_chunk_meta accepts a header outside the grammar");
+                assert!(rest.is_empty());
+                assert!(m.size == value);
+                assert!(m.signature.len() == 64);
+                assert!(m.signature.as_ptr() == b[K + 17..].as_ptr());
+            }
+            Err(e) => {
+                assert!(!want, "parse_chunk_meta refuses a header of the grammar");
+                core::mem::forget(e);
+            }
+        }
+    }
+
+    const NOP: usize = 99;
+
+    macro_rules! meta_harness {
+        ($name:ident, $body:block) => {
+            #[kani::proof]
+            #[kani::unwind(24)] // is_a <= K+2 bytes x 23 (memchr over the 22 hex digits); tag compare 17; the scans over the
+                                // buffer stop at concrete bytes (needs --max-field-sensitivity-array-size >= 96)
+            #[kani::stub(memchr_fn, naive_memchr)]
+            #[kani::stub(core::arch::x86_64::__cpuid_count, cpuid_zero)]
+            pub fn $name() {
+                $body;
+                kani::cover!(true);
+            }
+        };
+    }
+    // fn c08_h4_meta_k0()
+    meta_harness!(c08_h4_meta_k0, {
+        meta_case::<0, 0>(NOP, true);
+    });
+    // fn c08_h4_meta_k1()
+    meta_harness!(c08_h4_meta_k1, {
+        meta_case::<1, 0>(NOP, true);
+    });
+    // fn c08_h4_meta_k2()
+    meta_harness!(c08_h4_meta_k2, {
+        meta_case::<2, 0>(NOP, true);
+    });
+    // fn c08_h4_meta_k1_junk1()
+    meta_harness!(c08_h4_meta_k1_junk1, {
+        meta_case::<1, 1>(NOP, true);
+    });
+    // fn c08_h4_meta_k1_tag8()
+    meta_harness!(c08_h4_meta_k1_tag8, {
+        meta_case::<1, 0>(8, true);
+    });
+    /// FINDING chunk_size_trailing_junk: e.g. "1x;chunk-signature=<64>\r\n" is accepted with size 1: nom's hex_u32
+    /// stops at the first non-hex byte and parse_chunk_meta drops the rest of the size field (`let (_, size) = ..`).
+    // fn c08_h4_meta_finding_chunk_size_trailing_junk()
+    meta_harness!(c08_h4_meta_finding_chunk_size_trailing_junk, {
+        meta_case::<2, 0>(NOP, false);
+    });
+    // ---- generated by /verif/kani/gen/c08_bodies.py: genuine SigV4 chunk signatures (secret key "k", 20130524T000000Z, us-east-1/s3) ----
+    const A0: &str = "4f232c4386841ef735655705268965c44a0e4690baa4adea153f7db9fa80a0a9";
+    const A1: &str = "619dbd534323a5287a4623e6e2dcb7ad23489802991a4f282702bc30deef20db";
+    const A2: &str = "c80238d716b8cc73a3ed8005a554c5bd83379663909247f84694b7fb6070cf3d";
+    const A2C: &str = "c6548e0c5f7602330f63bf5a736fb83e2cbd3ce342a25f78c3d58ac0e080f60f";
+    const A3C: &str = "959a4239cf034c1d08d0963cb9437c2f9055a9602efe80bcc04fc41a263e9ac4";
+    const C0: &str = "fa2fc09cbd5e0ec23075c8ace4cbef84250376199042b975ed33813768c097b4";
+    const C1: &str = "638366a9735efaaa97fa26d4f303f4081bb5c61ec4b6224233e32099a71b688e";
+    const C2: &str = "ad6f8d88205c2ac0c3499885753bb034d6a1ef838d82d88f17a8e1a06e482307";
+    const R1: &str = "83723d31874326f55d83d87bacf9277b53b0a9f1b913c42a8aab4907cefb176f";
+    const R2: &str = "cf340570db5ef845847706bf8790beff0701df5669575a239ab43efab18fb1e4";
+    /// every genuine link (previous signature, chunk data, chunk signature) that occurs in the skeletons
+    static LINKS: [(&str, &[u8], &str); 6] = [
+        (A0, b"ab", A1),
+        (A1, b"", A2),
+        (A1, b"c", A2C),
+        (A2C, b"", A3C),
+        (C0, b"ab", C1),
+        (C1, b"", C2),
+    ];
+    /// a skeleton: the encoded body, the positions of its LF bytes, the honest declared decoded length, and the
+    /// reference outcome for that declared length (ok, delivered bytes) computed by /verif/kani/gen/c08_bodies.py::ref_decode
+    struct Skel { body: &'static [u8], lfs: &'static [usize], declared: usize, ok: bool, delivered: &'static [u8] }
+    static V_OK: Skel = Skel { body: b"2;chunk-signature=619dbd534323a5287a4623e6e2dcb7ad23489802991a4f282702bc30deef20db\r\nab\r\n0;chunk-signature=c80238d716b8cc73a3ed8005a554c5bd83379663909247f84694b7fb6070cf3d\r\n\r\n", lfs: &[83, 87, 171, 173], declared: 2, ok: true, delivered: b"ab" };
+    static V_DATA0: Skel = Skel { body: b"2;chunk-signature=619dbd534323a5287a4623e6e2dcb7ad23489802991a4f282702bc30deef20db\r\nxb\r\n0;chunk-signature=c80238d716b8cc73a3ed8005a554c5bd83379663909247f84694b7fb6070cf3d\r\n\r\n", lfs: &[83, 87, 171, 173], declared: 2, ok: false, delivered: b"" };
+    static V_DATA1: Skel = Skel { body: b"2;chunk-signature=619dbd534323a5287a4623e6e2dcb7ad23489802991a4f282702bc30deef20db\r\nax\r\n0;chunk-signature=c80238d716b8cc73a3ed8005a554c5bd83379663909247f84694b7fb6070cf3d\r\n\r\n", lfs: &[83, 87, 171, 173], declared: 2, ok: false, delivered: b"" };
+    static V_SIG: Skel = Skel { body: b"2;chunk-signature=119dbd534323a5287a4623e6e2dcb7ad23489802991a4f282702bc30deef20db\r\nab\r\n0;chunk-signature=c80238d716b8cc73a3ed8005a554c5bd83379663909247f84694b7fb6070cf3d\r\n\r\n", lfs: &[83, 87, 171, 173], declared: 2, ok: false, delivered: b"" };
+    static V_SHRINK: Skel = Skel { body: b"1;chunk-signature=619dbd534323a5287a4623e6e2dcb7ad23489802991a4f282702bc30deef20db\r\na\r\n0;chunk-signature=c80238d716b8cc73a3ed8005a554c5bd83379663909247f84694b7fb6070cf3d\r\n\r\n", lfs: &[83, 86, 170, 172], declared: 1, ok: false, delivered: b"" };
+    static V_GROW: Skel = Skel { body: b"3;chunk-signature=619dbd534323a5287a4623e6e2dcb7ad23489802991a4f282702bc30deef20db\r\nabc\r\n0;chunk-signature=c80238d716b8cc73a3ed8005a554c5bd83379663909247f84694b7fb6070cf3d\r\n\r\n", lfs: &[83, 88, 172, 174], declared: 3, ok: false, delivered: b"" };
+    static V_SIZELIE: Skel = Skel { body: b"1;chunk-signature=619dbd534323a5287a4623e6e2dcb7ad23489802991a4f282702bc30deef20db\r\nab\r\n0;chunk-signature=c80238d716b8cc73a3ed8005a554c5bd83379663909247f84694b7fb6070cf3d\r\n\r\n", lfs: &[83, 87, 171, 173], declared: 2, ok: false, delivered: b"" };
+    static V_RESIGN: Skel = Skel { body: b"2;chunk-signature=83723d31874326f55d83d87bacf9277b53b0a9f1b913c42a8aab4907cefb176f\r\nab\r\n0;chunk-signature=cf340570db5ef845847706bf8790beff0701df5669575a239ab43efab18fb1e4\r\n\r\n", lfs: &[83, 87, 171, 173], declared: 2, ok: false, delivered: b"" };
+    static V_SPLICE: Skel = Skel { body: b"2;chunk-signature=638366a9735efaaa97fa26d4f303f4081bb5c61ec4b6224233e32099a71b688e\r\nab\r\n0;chunk-signature=ad6f8d88205c2ac0c3499885753bb034d6a1ef838d82d88f17a8e1a06e482307\r\n\r\n", lfs: &[83, 87, 171, 173], declared: 2, ok: false, delivered: b"" };
+    static W_OK: Skel = Skel { body: b"2;chunk-signature=619dbd534323a5287a4623e6e2dcb7ad23489802991a4f282702bc30deef20db\r\nab\r\n1;chunk-signature=c6548e0c5f7602330f63bf5a736fb83e2cbd3ce342a25f78c3d58ac0e080f60f\r\nc\r\n0;chunk-signature=959a4239cf034c1d08d0963cb9437c2f9055a9602efe80bcc04fc41a263e9ac4\r\n\r\n", lfs: &[83, 87, 171, 174, 258, 260], declared: 3, ok: true, delivered: b"abc" };
+    static W_SWAP: Skel = Skel { body: b"1;chunk-signature=c6548e0c5f7602330f63bf5a736fb83e2cbd3ce342a25f78c3d58ac0e080f60f\r\nc\r\n2;chunk-signature=619dbd534323a5287a4623e6e2dcb7ad23489802991a4f282702bc30deef20db\r\nab\r\n0;chunk-signature=959a4239cf034c1d08d0963cb9437c2f9055a9602efe80bcc04fc41a263e9ac4\r\n\r\n", lfs: &[83, 86, 170, 174, 258, 260], declared: 3, ok: false, delivered: b"" };
+    static W_DUP: Skel = Skel { body: b"2;chunk-signature=619dbd534323a5287a4623e6e2dcb7ad23489802991a4f282702bc30deef20db\r\nab\r\n2;chunk-signature=619dbd534323a5287a4623e6e2dcb7ad23489802991a4f282702bc30deef20db\r\nab\r\n1;chunk-signature=c6548e0c5f7602330f63bf5a736fb83e2cbd3ce342a25f78c3d58ac0e080f60f\r\nc\r\n0;chunk-signature=959a4239cf034c1d08d0963cb9437c2f9055a9602efe80bcc04fc41a263e9ac4\r\n\r\n", lfs: &[83, 87, 171, 175, 259, 262, 346, 348], declared: 5, ok: false, delivered: b"ab" };
+    static W_DROP: Skel = Skel { body: b"1;chunk-signature=c6548e0c5f7602330f63bf5a736fb83e2cbd3ce342a25f78c3d58ac0e080f60f\r\nc\r\n0;chunk-signature=959a4239cf034c1d08d0963cb9437c2f9055a9602efe80bcc04fc41a263e9ac4\r\n\r\n", lfs: &[83, 86, 170, 172], declared: 1, ok: false, delivered: b"" };
+    static W_SKIP: Skel = Skel { body: b"2;chunk-signature=619dbd534323a5287a4623e6e2dcb7ad23489802991a4f282702bc30deef20db\r\nab\r\n0;chunk-signature=959a4239cf034c1d08d0963cb9437c2f9055a9602efe80bcc04fc41a263e9ac4\r\n\r\n", lfs: &[83, 87, 171, 173], declared: 2, ok: false, delivered: b"ab" };
+    static W_FOREIGN: Skel = Skel { body: b"2;chunk-signature=619dbd534323a5287a4623e6e2dcb7ad23489802991a4f282702bc30deef20db\r\nab\r\n2;chunk-signature=638366a9735efaaa97fa26d4f303f4081bb5c61ec4b6224233e32099a71b688e\r\nab\r\n0;chunk-signature=959a4239cf034c1d08d0963cb9437c2f9055a9602efe80bcc04fc41a263e9ac4\r\n\r\n", lfs: &[83, 87, 171, 175, 259, 261], declared: 4, ok: false, delivered: b"ab" };
+
+    // ------------------------------------------------------------------------------------------
+    // H1/H2/H3/P1: the compiled stream  AwsChunkedStream::new(..)  driven by a minimal executor.
+    //
+    // The generator's state lives on the heap (Box<dyn Future>), which CBMC's symbolic execution cannot constant-fold:
+    // every loop is unwound to the global bound even on concrete inputs (measured: one-frame concrete smoke test with
+    // naive memchr and unwind 180 did not leave symex in 800 s).  Therefore the global unwind bound is 6 (>= frames+1,
+    // chunks+1) and every loop over BYTES is replaced: memchr by an exact table look-up for slices of the skeleton,
+    // parse_chunk_meta (verified separately by the c08_h4_* harnesses) by a straight-line recogniser of the same
+    // grammar for one-digit sizes, check_signature by the chain model, the poll loop by an unrolled macro, the
+    // reference decoder by its pre-computed result (Skel.ok / Skel.delivered; tied to the in-Rust reference decoder
+    // by harness c08_ref_outcomes).
+    // ------------------------------------------------------------------------------------------
+
+    /// exact `memchr(b'\n', text)` for `text` = a slice of `skel.body` (position table instead of a byte loop);
+    /// asserts its own precondition.
+    fn memchr_in_skeleton(skel: &'static Skel, x: u8, text: &[u8]) -> Option<usize> {
+        if text.is_empty() {
+            return None;
+        }
+        let base = skel.body.as_ptr() as usize;
+        let a = text.as_ptr() as usize;
+        assert!(x == b'\n', "memchr stub: only LF is searched");
+        assert!(a >= base && (a - base) + text.len() <= skel.body.len(), "memchr stub: not a slice of the skeleton");
+        let off = a - base;
+        let mut ans = None;
+        macro_rules! lf {
+            ($k:expr) => {
+                if ans.is_none() && $k < skel.lfs.len() {
+                    let p = skel.lfs[$k];
+                    if p >= off && p - off < text.len() {
+                        ans = Some(p - off);
+                    }
+                }
+            };
+        }
+        lf!(0);
+        lf!(1);
+        lf!(2);
+        lf!(3);
+        lf!(4);
+        lf!(5);
+        lf!(6);
+        lf!(7);
+        assert!(skel.lfs.len() <= 8);
+        ans
+    }
+
+    /// Stub for `parse_chunk_meta` inside the stream harnesses: straight-line recogniser of
+    /// `1HEXDIG ";chunk-signature=" 64OCTET CRLF` (the grammar of c08_h4_* restricted to one-digit sizes; no
+    /// skeleton has a longer size field).
+    fn model_parse_chunk_meta(input: &[u8]) -> nom::IResult<&[u8], ChunkMeta<'_>> {
+        let b = input;
+        let good = b.len() == 84
+            && hexval(b[0]).is_some()
+            && b[1] == TAG[0]
+            && b[2] == TAG[1]
+            && b[3] == TAG[2]
+            && b[4] == TAG[3]
+            && b[5] == TAG[4]
+            && b[6] == TAG[5]
+            && b[7] == TAG[6]
+            && b[8] == TAG[7]
+            && b[9] == TAG[8]
+            && b[10] == TAG[9]
+            && b[11] == TAG[10]
+            && b[12] == TAG[11]
+            && b[13] == TAG[12]
+            && b[14] == TAG[13]
+            && b[15] == TAG[14]
+            && b[16] == TAG[15]
+            && b[17] == TAG[16]
+            && b[82] == b'\r'
+            && b[83] == b'\n';
+        if good {
+            let size = hexval(b[0]).unwrap() as usize;
+            Ok((&b[84..], ChunkMeta { size, signature: &b[18..82] }))
+        } else {
+            Err(nom::Err::Error(nom::error::Error::new(input, nom::error::ErrorKind::Tag)))
+        }
+    }
+
+    /// Stub for `check_signature` (SHA-256/HMAC do not fit into CBMC): the *chain model*.  A chunk signature is
+    /// valid iff (previous signature, chunk data, presented signature) is one of the genuine links of `LINKS`
+    /// (computed with the real SigV4 chunk algorithm by /verif/kani/gen/c08_bodies.py); signatures are identified by their bytes 0, 1
+    /// and 63 and length 64 (pairwise distinct over all signatures in the skeletons, checked by the generator), data
+    /// by its total length and bytes.  The verdict depends on the previous signature (order, seed), the size and the
+    /// content, and equals the real function's verdict on every skeleton; natively (playback) the real HMAC runs.
+    fn model_check_signature(ctx: &SignatureCtx, expected_signature: &[u8], chunk_data: &[Bytes]) -> Option<Box<str>> {
+        let mut total: usize = 0;
+        let mut d = [0u8; 4];
+        let mut i = 0;
+        while i < chunk_data.len() {
+            let piece: &[u8] = chunk_data[i].as_ref();
+            let mut j = 0;
+            while j < piece.len() {
+                if total < 4 {
+                    d[total] = piece[j];
+                }
+                total += 1;
+                j += 1;
+            }
+            i += 1;
+        }
+        let prev = ctx.prev_signature.as_bytes();
+        if prev.len() != 64 || expected_signature.len() != 64 {
+            return None;
+        }
+        let mut ans: Option<Box<str>> = None;
+        macro_rules! link {
+            ($l:expr) => {
+                if ans.is_none() {
+                    let (p, data, s) = LINKS[$l];
+                    let (p, s) = (p.as_bytes(), s.as_bytes());
+                    let same = prev[0] == p[0]
+                        && prev[1] == p[1]
+                        && prev[63] == p[63]
+                        && expected_signature[0] == s[0]
+                        && expected_signature[1] == s[1]
+                        && expected_signature[63] == s[63]
+                        && total == data.len()
+                        && (data.len() < 1 || d[0] == data[0])
+                        && (data.len() < 2 || d[1] == data[1])
+                        && (data.len() < 3 || d[2] == data[2]);
+                    if same {
+                        ans = Some(Box::from(LINKS[$l].2));
+                    }
+                }
+            };
+        }
+        link!(0);
+        link!(1);
+        link!(2);
+        link!(3);
+        link!(4);
+        link!(5);
+        ans
+    }
+
+    /// The transport: frames are the slices body[cut[i]..cut[i+1]] of ONE static skeleton (no heap, nothing to
+    /// drop); before each frame (and before the end) it may answer Pending once.
+    struct Src {
+        body: &'static [u8],
+        cut: [usize; 4],
+        nframes: usize,
+        pend: [bool; 4],
+        i: usize,
+    }
+
+    impl Stream for Src {
+        type Item = Result<Bytes, StdError>;
+        fn poll_next(mut self: Pin<&mut Self>, _cx: &mut Context<'_>) -> Poll<Option<Self::Item>> {
+            let this = &mut *self;
+            let i = this.i;
+            if i < 4 && this.pend[i] {
+                this.pend[i] = false;
+                return Poll::Pending;
+            }
+            if i < this.nframes {
+                this.i = i + 1;
+                let frame: &'static [u8] = &this.body[this.cut[i]..this.cut[i + 1]];
+                Poll::Ready(Some(Ok(Bytes::from_static(frame))))
+            } else {
+                Poll::Ready(None)
+            }
+        }
+    }
+
+    /// what the backend observes
+    struct Outcome {
+        /// the stream ended within the poll budget
+        ended: bool,
+        /// ended with Ok (None) / with an error item
+        ok: bool,
+        /// delivered bytes
+        n: usize,
+        out: [u8; 8],
+        /// `exact_remaining_length()` before the first poll
+        declared_seen: usize,
+    }
+
+    /// minimal executor: no-op waker, poll loop unrolled `polls` (<= 12) times
+    fn run(src: Src, declared: usize, polls: usize) -> Outcome {
+        let date = AmzDate::parse("20130524T000000Z").unwrap();
+        let mut s = AwsChunkedStream::new(src, A0.into(), date, "us-east-1".into(), "s3".into(), "k".into(), declared);
+        let mut o = Outcome { ended: false, ok: false, n: 0, out: [0; 8], declared_seen: s.exact_remaining_length() };
+        let mut cx = Context::from_waker(std::task::Waker::noop());
+        macro_rules! poll_once {
+            ($k:expr) => {
+                if $k < polls && !o.ended {
+                    match Pin::new(&mut s).poll_next(&mut cx) {
+                        Poll::Pending => {}
+                        Poll::Ready(None) => {
+                            o.ended = true;
+                            o.ok = true;
+                        }
+                        Poll::Ready(Some(Err(e))) => {
+                            o.ended = true;
+                            o.ok = false;
+                            core::mem::forget(e);
+                        }
+                        Poll::Ready(Some(Ok(b))) => {
+                            let piece: &[u8] = b.as_ref();
+                            let mut j = 0;
+                            while j < piece.len() {
+                                if o.n < 8 {
+                                    o.out[o.n] = piece[j];
+                                }
+                                o.n += 1;
+                                j += 1;
+                            }
+                            core::mem::forget(b);
+                        }
+                    }
+                }
+            };
+        }
+        poll_once!(0);
+        poll_once!(1);
+        poll_once!(2);
+        poll_once!(3);
+        poll_once!(4);
+        poll_once!(5);
+        poll_once!(6);
+        poll_once!(7);
+        poll_once!(8);
+        poll_once!(9);
+        poll_once!(10);
+        poll_once!(11);
+        core::mem::forget(s);
+        o
+    }
+
+    fn any_cuts(len: usize) -> [usize; 4] {
+        let c1: usize = kani::any();
+        let c2: usize = kani::any();
+        kani::assume(c1 <= c2 && c2 <= len);
+        [0, c1, c2, len]
+    }
+
+    /// The stream's outcome on the skeleton, cut into 3 frames at arbitrary positions (empty frames included) and
+    /// with an arbitrary Pending schedule if `pending`, is the reference outcome of the whole body: delivered
+    /// bytes = the data of the chunks before the first chunk that does not verify, error at that chunk, Ok only after
+    /// the verified zero-length chunk at the end of the input; the declared length is what the backend sees.
+    fn check_against_reference(skel: &'static Skel, pending: bool, polls: usize) {
+        let cut = any_cuts(skel.body.len());
+        let pend: [bool; 4] = if pending { kani::any() } else { [false; 4] };
+        let got = run(Src { body: skel.body, cut, nframes: 3, pend, i: 0 }, skel.declared, polls);
+        assert!(got.declared_seen == skel.declared, "the backend does not see the declared decoded length");
+        assert!(got.ended, "poll budget too small");
+        assert!(got.n == skel.delivered.len(), "delivered byte count differs from the reference");
+        let mut k = 0;
+        while k < skel.delivered.len() {
+            assert!(got.out[k] == skel.delivered[k], "delivered bytes differ from the reference");
+            k += 1;
+        }
+        assert!(got.ok == skel.ok, "Ok/Err differs from the reference");
+    }
+
+    macro_rules! skeleton_harness {
+        ($name:ident, $stub:ident, $skel:ident, $pending:expr, $polls:expr) => {
+            fn $stub(x: u8, text: &[u8]) -> Option<usize> {
+                memchr_in_skeleton(&$skel, x, text)
+            }
+            #[kani::proof]
+            #[kani::unwind(6)]
+            #[kani::stub(memchr_fn, $stub)]
+            #[kani::stub(core::arch::x86_64::__cpuid_count, cpuid_zero)]
+            #[kani::stub(check_signature, model_check_signature)]
+            #[kani::stub(parse_chunk_meta, model_parse_chunk_meta)]
+            pub fn $name() {
+                check_against_reference(&$skel, $pending, $polls);
+                kani::cover!(true);
+            }
+        };
+    }
+
+    // H1 (one data chunk + final chunk: valid / data altered / signature altered / resized / re-signed / spliced) and
+    // H2 (two data chunks: valid / swapped / duplicated / dropped / skipped / foreign chunk), all partitions into 3
+    // frames.  STATUS: do not fit (symex of the boxed generator), see specs/C08.json; replayed natively on samples.
+    // fn c08_h1_valid()
+    skeleton_harness!(c08_h1_valid, memchr_v_ok, V_OK, false, 6);
+    // fn c08_h1_data0()
+    skeleton_harness!(c08_h1_data0, memchr_v_data0, V_DATA0, false, 6);
+    // fn c08_h1_data1()
+    skeleton_harness!(c08_h1_data1, memchr_v_data1, V_DATA1, false, 6);
+    // fn c08_h1_sig()
+    skeleton_harness!(c08_h1_sig, memchr_v_sig, V_SIG, false, 6);
+    // fn c08_h1_shrink()
+    skeleton_harness!(c08_h1_shrink, memchr_v_shrink, V_SHRINK, false, 6);
+    // fn c08_h1_grow()
+    skeleton_harness!(c08_h1_grow, memchr_v_grow, V_GROW, false, 6);
+    // fn c08_h1_sizelie()
+    skeleton_harness!(c08_h1_sizelie, memchr_v_sizelie, V_SIZELIE, false, 6);
+    // fn c08_h1_resign()
+    skeleton_harness!(c08_h1_resign, memchr_v_resign, V_RESIGN, false, 6);
+    // fn c08_h1_splice()
+    skeleton_harness!(c08_h1_splice, memchr_v_splice, V_SPLICE, false, 6);
+    // fn c08_h2_valid()
+    skeleton_harness!(c08_h2_valid, memchr_w_ok, W_OK, false, 8);
+    // fn c08_h2_swap()
+    skeleton_harness!(c08_h2_swap, memchr_w_swap, W_SWAP, false, 8);
+    // fn c08_h2_dup()
+    skeleton_harness!(c08_h2_dup, memchr_w_dup, W_DUP, false, 8);
+    // fn c08_h2_drop()
+    skeleton_harness!(c08_h2_drop, memchr_w_drop, W_DROP, false, 8);
+    // fn c08_h2_skip()
+    skeleton_harness!(c08_h2_skip, memchr_w_skip, W_SKIP, false, 8);
+    // fn c08_h2_foreign()
+    skeleton_harness!(c08_h2_foreign, memchr_w_foreign, W_FOREIGN, false, 8);
+    // C09-P1: the same with an arbitrary Pending schedule of the transport (readiness)
+    // fn c09_p1_valid_pending()
+    skeleton_harness!(c09_p1_valid_pending, memchr_v_ok_p, V_OK, true, 10);
+    // fn c09_p1_dup_pending()
+    skeleton_harness!(c09_p1_dup_pending, memchr_w_dup_p, W_DUP, true, 12);
+
+    fn memchr_v_ok_b(x: u8, text: &[u8]) -> Option<usize> {
+        memchr_in_skeleton(&V_OK, x, text)
+    }
+
+    // ------------------------------------------------------------------------------------------
+    // H3: truncation and the declared decoded length.  The transport delivers V_OK.body[..t] in two frames
+    // ([0..c1], [c1..t]) and ends.  Layout of V_OK: header1 0..84, data "ab" 84..86, CRLF 86..88, header2 (size 0)
+    // 88..172, final CRLF 172..174.
+    // ------------------------------------------------------------------------------------------
+
+    /// oracle written from the property: Ok only for the complete upload (t = 174: the signed zero-length chunk was
+    /// received) whose total equals the declared length; chunk data is delivered whole or not at all and not
+    /// before all of it arrived; the complete, honestly declared upload succeeds.
+    fn h3_check(t: usize, declared: usize, got: &Outcome) {
+        assert!(got.declared_seen == declared, "the backend does not see the declared decoded length");
+        assert!(got.ended, "poll budget too small");
+        assert!(got.n == 0 || (got.n == 2 && got.out[0] == b'a' && got.out[1] == b'b'), "delivered bytes are not whole chunks");
+        assert!(got.n == 0 || t >= 86, "chunk data delivered before it arrived");
+        if got.ok {
+            assert!(t == 174, "a truncated upload (no signed zero-length chunk received) ends Ok");
+            assert!(got.n == declared, "the upload ends Ok although its total differs from the declared decoded length");
+        }
+        if t == 174 && declared == 2 {
+            assert!(got.ok && got.n == 2, "the complete upload is refused");
+        }
+    }
+
+    fn h3_run(t: usize, c1: usize, declared: usize) -> Outcome {
+        run(Src { body: V_OK.body, cut: [0, c1, t, t], nframes: 2, pend: [false; 4], i: 0 }, declared, 6)
+    }
+
+    /// H3 main harness: every truncation point t, first cut c1 <= t, declared in 0..=3, EXCLUDING exactly the roles
+    /// of the two findings: (a) the input ends before / inside a chunk header (t < 84 or 88 <= t < 172), (b) the
+    /// complete upload with a declared length other than its total.
+    /// STATUS: does not fit (symex of the boxed generator), see specs/C08.json; replayed natively on samples.
+    #[kani::proof]
+    #[kani::unwind(6)]
+    #[kani::stub(memchr_fn, memchr_v_ok_b)]
+    #[kani::stub(core::arch::x86_64::__cpuid_count, cpuid_zero)]
+    #[kani::stub(check_signature, model_check_signature)]
+    #[kani::stub(parse_chunk_meta, model_parse_chunk_meta)]
+    pub fn c08_h3_truncation() {
+        let t: usize = kani::any();
+        let c1: usize = kani::any();
+        let declared: usize = kani::any();
+        kani::assume(t <= 174 && c1 <= t && declared <= 3);
+        kani::assume(!(t < 84 || (t >= 88 && t < 172)));
+        kani::assume(!(t == 174 && declared != 2));
+        let got = h3_run(t, c1, declared);
+        h3_check(t, declared, &got);
+        kani::cover!(true);
+    }
+
+    /// FINDING truncated_upload_accepted: the transport ends before or inside a chunk header (also: at a chunk
+    /// boundary, also: before the first byte): `read_meta_bytes` answers None, the generator `break`s and the body
+    /// ends Ok - without the signed zero-length chunk, whatever was declared.
+    #[kani::proof]
+    #[kani::unwind(6)]
+    #[kani::stub(memchr_fn, memchr_v_ok_b)]
+    #[kani::stub(core::arch::x86_64::__cpuid_count, cpuid_zero)]
+    #[kani::stub(check_signature, model_check_signature)]
+    #[kani::stub(parse_chunk_meta, model_parse_chunk_meta)]
+    pub fn c08_h3_finding_truncated_upload_accepted() {
+        let t: usize = kani::any();
+        let c1: usize = kani::any();
+        let declared: usize = kani::any();
+        kani::assume(t <= 174 && c1 <= t && declared <= 3);
+        kani::assume(t < 84 || (t >= 88 && t < 172));
+        let got = h3_run(t, c1, declared);
+        h3_check(t, declared, &got);
+        kani::cover!(true);
+    }
+
+    /// FINDING declared_length_not_enforced: the complete, correctly signed upload of 2 bytes ends Ok although the
+    /// request declared 0, 1 or 3 decoded bytes (the backend is told the declared length, `remaining_length` only
+    /// saturates).
+    #[kani::proof]
+    #[kani::unwind(6)]
+    #[kani::stub(memchr_fn, memchr_v_ok_b)]
+    #[kani::stub(core::arch::x86_64::__cpuid_count, cpuid_zero)]
+    #[kani::stub(check_signature, model_check_signature)]
+    #[kani::stub(parse_chunk_meta, model_parse_chunk_meta)]
+    pub fn c08_h3_finding_declared_length_not_enforced() {
+        let c1: usize = kani::any();
+        let declared: usize = kani::any();
+        kani::assume(c1 <= 174 && declared <= 3 && declared != 2);
+        let got = h3_run(174, c1, declared);
+        h3_check(174, declared, &got);
+        kani::cover!(true);
+    }
+
+    // ------------------------------------------------------------------------------------------
+    // Unit level (futures on the STACK, no Box): read_meta_bytes / read_data under arbitrary framing
+    // ------------------------------------------------------------------------------------------
+
+    /// end of the frame that contains byte `idx` of the body
+    fn frame_end(cut: &[usize; 4], nframes: usize, idx: usize) -> usize {
+        if nframes >= 1 && idx < cut[1] {
+            cut[1]
+        } else if nframes >= 2 && idx < cut[2] {
+            cut[2]
+        } else {
+            cut[3]
+        }
+    }
+
+    /// `read_meta_bytes` on V_OK cut into frames at arbitrary positions (`three`: cuts c1 <= c2, else one cut c1;
+    /// `pending`: arbitrary Pending answers of the transport): it returns the rest of the frame that holds the first
+    /// LF, and `buf` is the header line (length 84, sampled at 6 positions): the result does not depend on the
+    /// framing nor on the readiness.
+    fn read_meta_bytes_framing(three: bool, pending: bool) {
+        let body = V_OK.body;
+        let cut = if three {
+            any_cuts(body.len())
+        } else {
+            let c1: usize = kani::any();
+            kani::assume(c1 <= body.len());
+            [0, c1, body.len(), body.len()]
+        };
+        let pend: [bool; 4] = if pending { kani::any() } else { [false; 4] };
+        let mut src = Src { body, cut, nframes: 3, pend, i: 0 };
+        let mut buf: Vec<u8> = Vec::new();
+        let mut cx = Context::from_waker(std::task::Waker::noop());
+        let mut res: Option<Option<Result<Bytes, StdError>>> = None;
+        {
+            let fut = AwsChunkedStream::read_meta_bytes(Pin::new(&mut src), Bytes::new(), &mut buf);
+            let mut fut = core::pin::pin!(fut);
+            macro_rules! poll_once {
+                () => {
+                    if res.is_none() {
+                        if let Poll::Ready(r) = fut.as_mut().poll(&mut cx) {
+                            res = Some(r);
+                        }
+                    }
+                };
+            }
+            poll_once!();
+            if pending {
+                poll_once!();
+                poll_once!();
+                poll_once!();
+                poll_once!();
+            }
+        }
+        assert!(res.is_some(), "poll budget too small");
+        match res.unwrap() {
+            Some(Ok(rem)) => {
+                assert!(buf.len() == 84);
+                assert!(buf[0] == b'2' && buf[1] == b';' && buf[17] == b'=' && buf[18] == A1.as_bytes()[0]);
+                assert!(buf[82] == b'\r' && buf[83] == b'\n');
+                let end = frame_end(&cut, 3, 83);
+                assert!(rem.len() == end - 84);
+                assert!(rem.is_empty() || rem.as_ptr() == body[84..].as_ptr());
+                core::mem::forget(rem);
+            }
+            other => {
+                core::mem::forget(other);
+                panic!("read_meta_bytes does not return the header line");
+            }
+        }
+        core::mem::forget(buf);
+    }
+
+    /// 3 frames (two symbolic cuts) + Pending schedule.  STATUS: does not fit (780 s in symex at 6.3 GB, killed).
+    #[kani::proof]
+    #[kani::unwind(6)]
+    #[kani::stub(memchr_fn, memchr_v_ok_b)]
+    #[kani::stub(core::arch::x86_64::__cpuid_count, cpuid_zero)]
+    pub fn c08_u1_read_meta_bytes_framing() {
+        read_meta_bytes_framing(true, true);
+        kani::cover!(true);
+    }
+
+    /// 2 frames (one symbolic cut), transport always ready.  STATUS: success in 217 s with --mem 12 (out of memory at 8 GB)
+    #[kani::proof]
+    #[kani::unwind(6)]
+    #[kani::stub(memchr_fn, memchr_v_ok_b)]
+    #[kani::stub(core::arch::x86_64::__cpuid_count, cpuid_zero)]
+    pub fn c08_u1_read_meta_bytes_framing_2frames() {
+        read_meta_bytes_framing(false, false);
+        kani::cover!(true);
+    }
+
+    /// 3 frames (two symbolic cuts), transport always ready.  STATUS: SAT back end out of memory at 8 GB (26 M clauses)
+    #[kani::proof]
+    #[kani::unwind(6)]
+    #[kani::stub(memchr_fn, memchr_v_ok_b)]
+    #[kani::stub(core::arch::x86_64::__cpuid_count, cpuid_zero)]
+    pub fn c08_u1_read_meta_bytes_framing_3frames() {
+        read_meta_bytes_framing(true, false);
+        kani::cover!(true);
+    }
+
+    /// 2 frames (one symbolic cut) + Pending schedule.  STATUS: not run
+    #[kani::proof]
+    #[kani::unwind(6)]
+    #[kani::stub(memchr_fn, memchr_v_ok_b)]
+    #[kani::stub(core::arch::x86_64::__cpuid_count, cpuid_zero)]
+    pub fn c08_u1_read_meta_bytes_framing_2frames_pending() {
+        read_meta_bytes_framing(false, true);
+        kani::cover!(true);
+    }
+
+    /// `read_meta_bytes` when the transport ends after V_OK.body[..t], t <= 83 (before the LF of the first header),
+    /// in two frames: it answers None - the same answer as for a transport that ends cleanly before a header - and
+    /// the partial header stays in `buf`.  (The generator maps None to a successful end: finding
+    /// truncated_upload_accepted, replayed natively.)
+    #[kani::proof]
+    #[kani::unwind(6)]
+    #[kani::stub(memchr_fn, memchr_v_ok_b)]
+    #[kani::stub(core::arch::x86_64::__cpuid_count, cpuid_zero)]
+    pub fn c08_u1_read_meta_bytes_end_of_input() {
+        let body = V_OK.body;
+        let c1: usize = kani::any();
+        let t: usize = kani::any();
+        kani::assume(c1 <= t && t <= 83);
+        let mut src = Src { body, cut: [0, c1, t, t], nframes: 2, pend: [false; 4], i: 0 };
+        let mut buf: Vec<u8> = Vec::new();
+        let mut cx = Context::from_waker(std::task::Waker::noop());
+        let mut res: Option<Option<Result<Bytes, StdError>>> = None;
+        {
+            let fut = AwsChunkedStream::read_meta_bytes(Pin::new(&mut src), Bytes::new(), &mut buf);
+            let mut fut = core::pin::pin!(fut);
+            if let Poll::Ready(r) = fut.as_mut().poll(&mut cx) {
+                res = Some(r);
+            }
+        }
+        assert!(res.is_some(), "poll budget too small");
+        let r = res.unwrap();
+        assert!(r.is_none());
+        assert!(buf.len() == t);
+        core::mem::forget(r);
+        core::mem::forget(buf);
+        kani::cover!(true);
+    }
+
+    type ReadData = Option<Result<(Vec<Bytes>, Bytes), AwsChunkedStreamError>>;
+
+    /// `read_data(size)` on body[..t]: the first c1 bytes are what was left over from the previous frame
+    /// (`prev_bytes`), the transport then delivers [c1..c2], [c2..t] (with Pending answers per `pend`) and ends.
+    /// None = still pending after 6 polls.
+    fn read_data_run(body: &'static [u8], c1: usize, c2: usize, t: usize, size: usize, pend: [bool; 4]) -> Option<ReadData> {
+        let mut src = Src { body, cut: [c1, c2, t, t], nframes: 2, pend, i: 0 };
+        let mut cx = Context::from_waker(std::task::Waker::noop());
+        let mut res: Option<ReadData> = None;
+        {
+            let fut = AwsChunkedStream::read_data(Pin::new(&mut src), Bytes::from_static(&body[..c1]), size);
+            let mut fut = core::pin::pin!(fut);
+            macro_rules! poll_once {
+                () => {
+                    if res.is_none() {
+                        if let Poll::Ready(r) = fut.as_mut().poll(&mut cx) {
+                            res = Some(r);
+                        }
+                    }
+                };
+            }
+            poll_once!();
+            poll_once!();
+            poll_once!();
+            poll_once!();
+            poll_once!();
+            poll_once!();
+        }
+        res
+    }
+
+    static D_OK: &[u8] = b"ab\r\n0;chu";
+    static D_BAD_CR: &[u8] = b"abX\n0;chu";
+    static D_BAD_LF: &[u8] = b"ab\rX0;chu";
+    static D_FINAL: &[u8] = b"\r\n";
+
+    fn any_split(t: usize) -> (usize, usize) {
+        let c1: usize = kani::any();
+        let c2: usize = kani::any();
+        kani::assume(c1 <= c2 && c2 <= t);
+        (c1, c2)
+    }
+
+    /// (The four harnesses below use SYMBOLIC cut positions and do NOT fit: c08_u2_read_data_final_chunk was killed
+    /// after 270 s in symex at 5.6 GB, c08_u2_read_data_end_of_input after 420 s at 3.3 GB - the Vec<Bytes> lives on
+    /// the heap and every Bytes clone/drop expands into all vtable implementations.  The *_cutset harnesses further
+    /// down check the same on concrete cut positions and finish.)
+    /// `read_data(2)` on "ab" CRLF "0;chu" under every framing (leftover + 2 frames, Pending schedule): the pieces
+    /// concatenate to "ab", CRLF is consumed, the rest of the frame that holds the LF is handed back.
+    #[kani::proof]
+    #[kani::unwind(6)]
+    pub fn c08_u2_read_data_framing() {
+        let body = D_OK;
+        let t = body.len();
+        let (c1, c2) = any_split(t);
+        let pend: [bool; 4] = kani::any();
+        let res = read_data_run(body, c1, c2, t, 2, pend);
+        assert!(res.is_some(), "poll budget too small");
+        match res.unwrap() {
+            Some(Ok((pieces, rem))) => {
+                let mut n = 0;
+                let mut out = [0u8; 4];
+                let mut i = 0;
+                while i < pieces.len() {
+                    let piece: &[u8] = pieces[i].as_ref();
+                    let mut j = 0;
+                    while j < piece.len() {
+                        if n < 4 {
+                            out[n] = piece[j];
+                        }
+                        n += 1;
+                        j += 1;
+                    }
+                    i += 1;
+                }
+                assert!(n == 2 && out[0] == b'a' && out[1] == b'b');
+                // the frame (or leftover) that holds the LF (index 3)
+                let end = if 3 < c1 { c1 } else if 3 < c2 { c2 } else { t };
+                assert!(rem.len() == end - 4);
+                assert!(rem.is_empty() || rem.as_ptr() == body[4..].as_ptr());
+                core::mem::forget(pieces);
+                core::mem::forget(rem);
+            }
+            other => {
+                core::mem::forget(other);
+                panic!("read_data does not return the chunk data");
+            }
+        }
+        kani::cover!(true);
+    }
+
+    /// `read_data(0)` (final chunk) on CRLF under every framing: no data piece, CRLF consumed.
+    #[kani::proof]
+    #[kani::unwind(6)]
+    pub fn c08_u2_read_data_final_chunk() {
+        let body = D_FINAL;
+        let (c1, c2) = any_split(2);
+        let pend: [bool; 4] = kani::any();
+        let res = read_data_run(body, c1, c2, 2, 0, pend);
+        assert!(res.is_some(), "poll budget too small");
+        match res.unwrap() {
+            Some(Ok((pieces, rem))) => {
+                let mut n = 0;
+                let mut i = 0;
+                while i < pieces.len() {
+                    n += pieces[i].len();
+                    i += 1;
+                }
+                assert!(n == 0);
+                assert!(rem.is_empty());
+                core::mem::forget(pieces);
+                core::mem::forget(rem);
+            }
+            other => {
+                core::mem::forget(other);
+                panic!("read_data(0) does not accept CRLF");
+            }
+        }
+        kani::cover!(true);
+    }
+
+    /// a chunk whose data is not followed by CRLF is a format error under every framing (the size was altered, or
+    /// bytes were inserted / removed)
+    #[kani::proof]
+    #[kani::unwind(6)]
+    pub fn c08_u2_read_data_bad_terminator() {
+        let body = if kani::any() { D_BAD_CR } else { D_BAD_LF };
+        let t = body.len();
+        let (c1, c2) = any_split(t);
+        let res = read_data_run(body, c1, c2, t, 2, [false; 4]);
+        assert!(res.is_some(), "poll budget too small");
+        let r = res.unwrap();
+        assert!(matches!(r, Some(Err(AwsChunkedStreamError::FormatError))));
+        core::mem::forget(r);
+        kani::cover!(true);
+    }
+
+    /// the transport ends inside the chunk data or inside its CRLF (t <= 3 of "ab" CRLF): read_data answers None
+    /// (the generator turns it into the Incomplete error) under every framing
+    #[kani::proof]
+    #[kani::unwind(6)]
+    pub fn c08_u2_read_data_end_of_input() {
+        let body = D_OK;
+        let t: usize = kani::any();
+        kani::assume(t <= 3);
+        let (c1, c2) = any_split(t);
+        let res = read_data_run(body, c1, c2, t, 2, [false; 4]);
+        assert!(res.is_some(), "poll budget too small");
+        let r = res.unwrap();
+        assert!(r.is_none());
+        core::mem::forget(r);
+        kani::cover!(true);
+    }
+
+    // ---- the same unit-level checks on CONCRETE cut positions (STYLE rule 2: concrete lengths) ----
+
+    /// read_meta_bytes on V_OK cut at the concrete positions (c1, c2), transport always ready
+    fn read_meta_case(c1: usize, c2: usize) {
+        let body = V_OK.body;
+        let cut = [0, c1, c2, body.len()];
+        let mut src = Src { body, cut, nframes: 3, pend: [false; 4], i: 0 };
+        let mut buf: Vec<u8> = Vec::new();
+        let mut cx = Context::from_waker(std::task::Waker::noop());
+        let res;
+        {
+            let fut = AwsChunkedStream::read_meta_bytes(Pin::new(&mut src), Bytes::new(), &mut buf);
+            let mut fut = core::pin::pin!(fut);
+            res = fut.as_mut().poll(&mut cx);
+        }
+        match res {
+            Poll::Ready(Some(Ok(rem))) => {
+                assert!(buf.len() == 84);
+                assert!(buf[0] == b'2' && buf[1] == b';' && buf[17] == b'=' && buf[18] == A1.as_bytes()[0]);
+                assert!(buf[82] == b'\r' && buf[83] == b'\n');
+                let end = frame_end(&cut, 3, 83);
+                assert!(rem.len() == end - 84);
+                assert!(rem.is_empty() || rem.as_ptr() == body[84..].as_ptr());
+                core::mem::forget(rem);
+            }
+            other => {
+                core::mem::forget(other);
+                panic!("read_meta_bytes does not return the header line");
+            }
+        }
+        core::mem::forget(buf);
+    }
+
+    /// 3 frames with the cuts between CR and LF and right behind the LF: [..83] [83..84] [84..] (two- and
+    /// multi-pair versions of this harness ran out of memory (8 GB) in the SAT back end: 4 pairs = 302 k steps)
+    #[kani::proof]
+    #[kani::unwind(6)]
+    #[kani::stub(memchr_fn, memchr_v_ok_b)]
+    #[kani::stub(core::arch::x86_64::__cpuid_count, cpuid_zero)]
+    pub fn c08_u1_read_meta_bytes_framing_cut_83_84() {
+        read_meta_case(83, 84);
+        kani::cover!(true);
+    }
+
+    /// 3 frames [..1] [1..83] [83..]: size digit alone, header without its LF, LF + rest
+    #[kani::proof]
+    #[kani::unwind(6)]
+    #[kani::stub(memchr_fn, memchr_v_ok_b)]
+    #[kani::stub(core::arch::x86_64::__cpuid_count, cpuid_zero)]
+    pub fn c08_u1_read_meta_bytes_framing_cut_1_83() {
+        read_meta_case(1, 83);
+        kani::cover!(true);
+    }
+
+    /// read_data(2) on D_OK = "ab" CRLF "0;chu": leftover [..c1], frames [c1..c2], [c2..9], transport always ready
+    fn read_data_case(c1: usize, c2: usize) {
+        let body = D_OK;
+        let res = read_data_run(body, c1, c2, body.len(), 2, [false; 4]);
+        assert!(res.is_some(), "poll budget too small");
+        match res.unwrap() {
+            Some(Ok((pieces, rem))) => {
+                let mut n = 0;
+                let mut out = [0u8; 4];
+                let mut i = 0;
+                while i < pieces.len() {
+                    let piece: &[u8] = pieces[i].as_ref();
+                    let mut j = 0;
+                    while j < piece.len() {
+                        if n < 4 {
+                            out[n] = piece[j];
+                        }
+                        n += 1;
+                        j += 1;
+                    }
+                    i += 1;
+                }
+                assert!(n == 2 && out[0] == b'a' && out[1] == b'b');
+                let end = if 3 < c1 { c1 } else if 3 < c2 { c2 } else { body.len() };
+                assert!(rem.len() == end - 4);
+                assert!(rem.is_empty() || rem.as_ptr() == body[4..].as_ptr());
+                core::mem::forget(pieces);
+                core::mem::forget(rem);
+            }
+            other => {
+                core::mem::forget(other);
+                panic!("read_data does not return the chunk data");
+            }
+        }
+    }
+
+    /// all 28 cut pairs c1 <= c2 over {0, 1, 2, 3, 4, 5, 9}
+    #[kani::proof]
+    #[kani::unwind(6)]
+    pub fn c08_u2_read_data_framing_cutset() {
+        read_data_case(0, 0);
+        read_data_case(0, 1);
+        read_data_case(0, 2);
+        read_data_case(0, 3);
+        read_data_case(0, 4);
+        read_data_case(0, 5);
+        read_data_case(0, 9);
+        read_data_case(1, 1);
+        read_data_case(1, 2);
+        read_data_case(1, 3);
+        read_data_case(1, 4);
+        read_data_case(1, 5);
+        read_data_case(1, 9);
+        read_data_case(2, 2);
+        read_data_case(2, 3);
+        read_data_case(2, 4);
+        read_data_case(2, 5);
+        read_data_case(2, 9);
+        read_data_case(3, 3);
+        read_data_case(3, 4);
+        read_data_case(3, 5);
+        read_data_case(3, 9);
+        read_data_case(4, 4);
+        read_data_case(4, 5);
+        read_data_case(4, 9);
+        read_data_case(5, 5);
+        read_data_case(5, 9);
+        read_data_case(9, 9);
+        kani::cover!(true);
+    }
+
+    /// read_data(size) on body[..t] (leftover [..c1], frames [c1..c2], [c2..t], then end), concrete positions;
+    /// expect: 1 = FormatError, 2 = None (transport ended: the generator reports Incomplete), 3 = Ok without data
+    fn read_data_expect(body: &'static [u8], c1: usize, c2: usize, t: usize, size: usize, expect: u8) {
+        let res = read_data_run(body, c1, c2, t, size, [false; 4]);
+        assert!(res.is_some(), "poll budget too small");
+        let r = res.unwrap();
+        match &r {
+            Some(Err(AwsChunkedStreamError::FormatError)) => assert!(expect == 1),
+            None => assert!(expect == 2),
+            Some(Ok((pieces, rem))) => {
+                assert!(expect == 3);
+                assert!(pieces.is_empty() && rem.is_empty());
+            }
+            _ => panic!("unexpected answer of read_data"),
+        }
+        core::mem::forget(r);
+    }
+
+    /// chunk data that is not followed by CRLF ("abX\n..", "ab\rX..") is a FormatError for 4 cut pairs each
+    #[kani::proof]
+    #[kani::unwind(6)]
+    pub fn c08_u2_read_data_bad_terminator_cutset() {
+        read_data_expect(D_BAD_CR, 0, 0, 9, 2, 1);
+        read_data_expect(D_BAD_LF, 0, 0, 9, 2, 1);
+        read_data_expect(D_BAD_CR, 2, 3, 9, 2, 1);
+        read_data_expect(D_BAD_LF, 2, 3, 9, 2, 1);
+        read_data_expect(D_BAD_CR, 3, 4, 9, 2, 1);
+        read_data_expect(D_BAD_LF, 3, 4, 9, 2, 1);
+        read_data_expect(D_BAD_CR, 1, 3, 9, 2, 1);
+        read_data_expect(D_BAD_LF, 1, 3, 9, 2, 1);
+        kani::cover!(true);
+    }
+
+    /// the transport ends inside the data / inside its CRLF (t = 0..3 of "ab" CRLF): None for 8 framings;
+    /// read_data(0) on CRLF (final chunk): Ok, no data, for all 6 framings of the 2 bytes
+    #[kani::proof]
+    #[kani::unwind(6)]
+    pub fn c08_u2_read_data_end_and_final_cutset() {
+        read_data_expect(D_OK, 0, 0, 0, 2, 2);
+        read_data_expect(D_OK, 0, 0, 1, 2, 2);
+        read_data_expect(D_OK, 0, 1, 1, 2, 2);
+        read_data_expect(D_OK, 0, 1, 2, 2, 2);
+        read_data_expect(D_OK, 1, 2, 2, 2, 2);
+        read_data_expect(D_OK, 0, 2, 3, 2, 2);
+        read_data_expect(D_OK, 2, 3, 3, 2, 2);
+        read_data_expect(D_OK, 1, 1, 3, 2, 2);
+        read_data_expect(D_FINAL, 0, 0, 2, 0, 3);
+        read_data_expect(D_FINAL, 0, 1, 2, 0, 3);
+        read_data_expect(D_FINAL, 1, 1, 2, 0, 3);
+        read_data_expect(D_FINAL, 1, 2, 2, 0, 3);
+        read_data_expect(D_FINAL, 0, 2, 2, 0, 3);
+        read_data_expect(D_FINAL, 2, 2, 2, 0, 3);
+        kani::cover!(true);
+    }
+
+    /// the memchr stub of the stream / unit harnesses is exact: for every slice V_OK.body[a..b] the position table
+    /// gives the same answer as the byte loop
+    #[kani::proof]
+    #[kani::unwind(180)]
+    pub fn c08_stub_memchr_table_is_exact() {
+        let a: usize = kani::any();
+        let b: usize = kani::any();
+        kani::assume(a <= b && b <= V_OK.body.len());
+        let text = &V_OK.body[a..b];
+        let want = naive_memchr(b'\n', text);
+        let got = memchr_in_skeleton(&V_OK, b'\n', text);
+        assert!(want.is_some() == got.is_some());
+        if let (Some(x), Some(y)) = (want, got) {
+            assert!(x == y);
+        }
+        kani::cover!(true);
+    }
+}
